@@ -132,9 +132,9 @@ def fresh_z(t, p='v'):
     return z3.Const(fresh_name(p), sort_of(t))
 
 class V:
-    __slots__ = ('t', 'z', 'ref', 'detached')
+    __slots__ = ('t', 'z', 'ref', 'detached', 'src')
     def __init__(self, t, z=None, ref=None):
-        self.t = t; self.z = z; self.ref = ref; self.detached = False
+        self.t = t; self.z = z; self.ref = ref; self.detached = False; self.src = None
     def __repr__(self):
         return 'V(%s,%s%s)' % (self.t, self.z, '' if self.ref is None else ',ref=%s' % self.ref)
 
